@@ -310,7 +310,7 @@ def h_run(spec, tag=""):
         spec.loop(CLI, "_run", ctx_loop_ord, LoopSpec(lambda c: z3.BoolVal(True), modifies_heap=True, frame_except=ctx_frame))
         def run_frame(c):
             spec.H_LOOP = c.h0          # the heap when the run loop is entered (after all pre-flight checks)
-            return [lambda r: z3.And(r != V.id(spec.RUNS), r != V.id(c.var("ctx_dict")))]
+            return [lambda r: r > c.entry["nalloc"]]       # an iteration changes nothing but objects created inside the loop
         spec.H_LOOP = None
         spec.loop(CLI, "_run", run_loop_ord, LoopSpec(loop_inv(spec), modifies_heap=True, frame_except=run_frame))
         out = E.execute(I, E.hfunc(CLI, "_run"), [spec.ARGS])
